@@ -215,6 +215,26 @@ func (e *Exec) harnessAPI2(fn *ssa.Function, args []Value) (Value, bool) {
 		e.watchValue(args[1], mu.C, 0)
 		e.watchOff = false
 		return nil, true
+	case "vUF64":
+		// vUF64(name string, a, b, c uint64) uint64
+		name := e.constStr(args[0])
+		var ts []*smt.Term
+		for _, a := range args[1:] {
+			ts = append(ts, a.(*smt.Term))
+		}
+		if e.ufSeen == nil {
+			e.ufSeen = map[string]bool{}
+		}
+		e.ufSeen["uf_"+name] = true
+		app := smt.App("uf_"+name, smt.BV(64), ts...)
+		if len(e.ufLog) < 64 {
+			var la [][]*smt.Term
+			for _, t := range ts {
+				la = append(la, bytesOfTerm(t, 8))
+			}
+			e.ufLog = append(e.ufLog, ufLogEntry{name: "vUF64:" + name, args: la, res: app})
+		}
+		return app, true
 	case "vWatchOff":
 		e.watchOff = true
 		return nil, true
